@@ -1,3 +1,4 @@
+import H2.Proofs.ServerFlowFull
 import H2.Proofs.Flow
 /-!
 # C06 — the server never sends DATA beyond the peer's flow-control windows, and finishes
@@ -65,5 +66,173 @@ example : Inv init := init_inv
 example (s : Strm) (cw : Int) (cs : Nat) (h : s.pending = 25) :
     (sendData s cw cs).1.pending + total (sendData s cw cs).2.2.2 = 25 := by
   rw [send_conserves, h]
+
+end H2.Props.C06
+
+
+/-! # C06 on the FULL server model (safety half)
+
+NEEDS one more import at the head of this file: `import H2.Proofs.ServerFlowFull`.
+
+Everything below is about `H2.Server.stepR` / `step` of `H2/Server/Model.lean` itself — the model that is diffed against
+`serverConn.go` — for EVERY configuration `cfg` and EVERY event list `evs`; the abstract model `H2.Server.Flow` above is not
+involved. `runOuts cfg evs` are the outputs of the run, `runFwd cfg evs` the frames the read loop handed to the stream loop
+(`R.fwd`, step by step), `(run cfg evs).1` the state reached.
+
+Measures: `sentC outs` / `sentS sid outs` = payload octets of the DATA frames in `outs` (on stream `sid`); `grantC fwd` = sum
+of the increments of the WINDOW_UPDATE frames on stream 0 in `fwd`; `wuS sid fwd` = the same for the WINDOW_UPDATE frames on
+stream `sid`; `initWin fwd` = 65 535, or the value of the last SETTINGS_INITIAL_WINDOW_SIZE in `fwd`.
+
+Step level: `full_data_within_windows`, `full_one_frame`, `full_callers_send_through_sendData`, `full_no_data_elsewhere`,
+`full_windows_only_grow_by_grants`, `full_grant_handlers`, `full_no_window_moves_elsewhere`.
+Run level: `full_conn_ledger`, `full_conn_never_overdrawn`, `full_stream_ledger`, `full_max_frame_size`.
+The liveness half of C06 (`no_sendable_left`) stays on the abstract model. -/
+namespace H2.Props.C06
+open H2.Server
+
+/-- **data_within_windows** (step level; any state whose table has distinct uids and ids, which every reachable state has:
+`full_reachable_table`). What one run of `sendData` on the stream `uid` appends is a list `l` of DATA frames on that stream's
+id (and at most a RST_STREAM after a failed body read) such that, frame by frame, a non-empty frame has
+`len ≤ clientWindow`, `len ≤` the stream's window — both AS THEY ARE JUST BEFORE THAT FRAME — and `len ≤ 16 384`
+(`Fits`); the two windows go down by exactly the octets of `l`. -/
+theorem full_data_within_windows (r : R) (t : Tbl r) (uid : Nat) (st : Strm) (hg : r.getStrm uid = some st) :
+    ∃ l, (sendData r uid).1.out = r.out ++ l ∧ Fits st.id r.s.clientWindow st.window l ∧
+      (sendData r uid).1.s.clientWindow = r.s.clientWindow - sentC l ∧
+      ∀ st', (sendData r uid).1.getStrm uid = some st' → st'.id = st.id ∧ st'.window = st.window - sentC l :=
+  sendData_fits t uid st hg
+
+/-- … one frame (`sendFrame`): one DATA record of `step` octets on the stream's id, `clientWindow` and the window of the
+stream object `uid` down by `step`, nothing else -/
+theorem full_one_frame (r : R) (uid : Nat) (st : Strm) (step : Nat) :
+    (∃ es d, (sendFrame r uid st step).1.out = r.out ++ [.data st.id es step d]) ∧
+    (sendFrame r uid st step).1.s.clientWindow = r.s.clientWindow - step ∧
+    (sendFrame r uid st step).1.s.strms =
+      r.s.strms.map (fun s => if s.uid == uid then sentStrm s (st.pendLen - step) step else s) :=
+  sendFrame_spec r uid st step
+
+/-- … `flushOne` (hence `flushStreams`, a fold of it followed by `closeDone`s that write nothing), `finishRequest` and
+`dispatchOrSend` write DATA only through `sendData`: each is `sendData` applied to a state with the same windows, or
+writes no DATA at all (`Quiet`: no window moved, no DATA octet written) -/
+theorem full_callers_send_through_sendData (r : R) (uid : Nat) :
+    (∀ acc : R × List Nat, (flushOne acc uid).1 = acc.1 ∨ (flushOne acc uid).1 = (sendData acc.1 uid).1) ∧
+    (∀ resp, ∃ r0, Quiet r r0 ∧ wtab r0 = wtab r ∧
+      ((finishRequest r uid resp).1 = r0 ∨ (finishRequest r uid resp).1 = (sendData r0 uid).1)) ∧
+    (∀ st, st.id ≤ r.s.lastID → Quiet r (dispatchOrSend r uid st) ∨
+      ∃ r1, Quiet (sendData r uid).1 r1 ∧ dispatchOrSend r uid st = r1) :=
+  ⟨fun acc => flushOne_sends acc uid, fun resp => finishRequest_sends uid resp,
+    fun st hle => dispatchOrSend_sends uid st hle⟩
+
+/-- … and no other function of the stream loop or the read loop writes a DATA frame (the counting lemmas of
+`ServerExt.lean`; `slFrame` / `slHandlerDone` reach DATA only through the three callers above) -/
+theorem full_no_data_elsewhere (r : R) (uid : Nat) (fr : H2.Frame.Frame) (wc : Bool) (e : Option SErr) (n : Nat)
+    (st : H2.Frame.SettingsVal) :
+    cnt .data (handleFrame r uid fr).1.out = cnt .data r.out ∧
+    cnt .data (unknownStream r fr wc).1.out = cnt .data r.out ∧
+    cnt .data (headersPrelude r fr).1.out = cnt .data r.out ∧
+    cnt .data (onFrameError r uid e).1.out = cnt .data r.out ∧
+    cnt .data (consumeConnWindow r n).out = cnt .data r.out ∧
+    cnt .data (contCheck r fr).1.out = cnt .data r.out ∧
+    cnt .data (handleSettings r st).out = cnt .data r.out :=
+  ⟨handleFrame_cnt .data (by decide) r uid fr, unknownStream_cnt .data (by decide) r fr wc,
+    headersPrelude_cnt .data (by decide) r fr, onFrameError_cnt .data (by decide) r uid e,
+    consumeConnWindow_cnt .data (by decide) r n, contCheck_cnt .data (by decide) r fr,
+    by simp [handleSettings, Out.kind]⟩
+
+/-- **windows_only_grow_by_grants** (one event, from any state satisfying the invariant `SInv`, which every reachable state
+does: `full_reachable`). Across the step the connection window moves by exactly
+`+ (connection WINDOW_UPDATE increments forwarded in the step) − (DATA octets written in the step)`; while the stream loop
+runs, a stream that stays in the table moves by `+ (new − old SETTINGS_INITIAL_WINDOW_SIZE, possibly negative)
++ (WINDOW_UPDATE increments forwarded on its id) − (DATA octets written on its id)`, and a stream that enters the table
+stands at `initial window in force + increments on its id − DATA octets on its id` -/
+theorem full_windows_only_grow_by_grants {O : List Out} {F : List H2.Frame.Frame} {s : Srv} (h : SInv O F s) (ev : Event) :
+    (stepR s ev).s.clientWindow + (sentC (stepR s ev).out : Int) = s.clientWindow + (grantC (stepR s ev).fwd : Int) ∧
+    ((stepR s ev).s.slStopped = false → s.slStopped = false →
+      ∀ st' ∈ (stepR s ev).s.strms,
+        (∀ st ∈ s.strms, st.id = st'.id →
+          st'.window + (sentS st'.id (stepR s ev).out : Int) =
+            st.window + ((stepR s ev).s.curInitWin - s.curInitWin) + (wuS st'.id (stepR s ev).fwd : Int)) ∧
+        (s.lastID < st'.id → s.lastRefused < st'.id →
+          st'.window + (sentS st'.id (stepR s ev).out : Int) =
+            (stepR s ev).s.curInitWin + (wuS st'.id (stepR s ev).fwd : Int))) :=
+  step_ledger h ev
+
+/-- … function by function. The handlers that raise a send window: (1) `handleFrame` on a stream WINDOW_UPDATE it lets
+through raises the window of that stream object by the increment and does nothing else; (2) a connection WINDOW_UPDATE taken
+by the stream loop (`slFrame_eq`: `slConnWU`) adds the increment to `clientWindow`, then flushes; (3)
+SETTINGS_INITIAL_WINDOW_SIZE (`slSettings`) adds `new − old` to every stream of the table unless one would pass 2^31−1
+(`applyDelta`; then GOAWAY and the loop stops); (4) a new stream starts at `curInitWin` (`withNew`). Every other function is
+`Quiet` (`full_no_window_moves_elsewhere`) or lowers the windows (`full_one_frame`). -/
+theorem full_grant_handlers (r : R) (uid : Nat) (fr : H2.Frame.Frame) (st : Strm) :
+    (r.getStrm uid = some st → verifyState st fr = none → fr.typ = H2.Gen.c_FrameWindowUpdate →
+      (st.state == .idle) = false → (wuOf fr == 0) = false →
+        (handleFrame r uid fr).1 = r.updStrm uid fun s => { s with window := st.window + wuOf fr }) ∧
+    (∀ d l, (applyDelta d l).2 = false → (applyDelta d l).1 = l.map (fun s => { s with window := s.window + d })) ∧
+    (∀ d l, (applyDelta d l).1.map (fun s => (s.uid, s.id)) = l.map (fun s => (s.uid, s.id))) ∧
+    (withNew r fr).s.strms = r.s.strms ++ [{ uid := r.s.nextUid, id := fr.stream, window := r.s.curInitWin, origType := fr.typ }] :=
+  ⟨fun hg hv ht hs hi => handleFrame_wu r uid fr st hg hv ht hs hi, applyDelta_ok, applyDelta_keys, rfl⟩
+
+theorem full_no_window_moves_elsewhere {r : R} (t : Tbl r) (uid : Nat) (fr : H2.Frame.Frame) (e : SErr) (oe : Option SErr)
+    (st : Strm) (resp : Resp) (hb : Bool) (fuel id : Nat) :
+    Quiet r (writeError r uid e) ∧ Quiet r (closeStream r uid) ∧ Quiet r (closeDone r uid) ∧
+    Quiet r (closeIfClosed r uid) ∧ Quiet r (closeIdleBelow fuel r id) ∧ Quiet r (headersPrelude r fr).1 ∧
+    Quiet r (onFrameError r uid oe).1 ∧ Quiet r (dispatch r uid st) ∧ Quiet r (responseHeaders r st resp hb) ∧
+    Quiet r (contCheck r fr).1 ∧ Quiet r (closeBody r uid) ∧ Quiet r (settle r) ∧
+    (r.getStrm uid = some st → Quiet r (refill r uid st).1 ∧ Quiet r (hfHeaders r uid st fr).1) :=
+  quiet_functions t uid fr e oe st resp hb fuel id
+
+/-- the invariant (table facts, send ledger, receive ledger) holds after every run -/
+theorem full_reachable (cfg : Cfg) (evs : List Event) : SInv (runOuts cfg evs) (runFwd cfg evs) (run cfg evs).1 :=
+  run_sinv cfg evs
+
+theorem full_reachable_table (cfg : Cfg) (evs : List Event) : Tbl { s := (run cfg evs).1 } := reachable_tbl cfg evs
+
+/-- **connection ledger** (run level): `clientWindow + DATA octets written = 65 535 + connection increments forwarded`, and
+`clientWindow ≥ 0` -/
+theorem full_conn_ledger (cfg : Cfg) (evs : List Event) :
+    (run cfg evs).1.clientWindow + (sentC (runOuts cfg evs) : Int) = 65535 + (grantC (runFwd cfg evs) : Int) ∧
+      0 ≤ (run cfg evs).1.clientWindow :=
+  conn_ledger cfg evs
+
+/-- **never overdraw the connection** (run level): for every prefix `p` of the outputs of any run, the DATA octets of `p`
+are at most 65 535 plus the connection increments the peer has sent (those of the run: an increment is never negative) -/
+theorem full_conn_never_overdrawn (cfg : Cfg) (evs : List Event) (p : List Out) (hp : p <+: runOuts cfg evs) :
+    sentC p ≤ 65535 + grantC (runFwd cfg evs) :=
+  conn_never_overdrawn cfg evs p hp
+
+/-- **stream ledger** (run level): while the stream loop runs, for every stream of the table
+`window + DATA octets written on its id = SETTINGS_INITIAL_WINDOW_SIZE in force + increments forwarded on its id`
+(a SETTINGS decrease may leave `window` negative: then nothing is sent until it is positive again, by
+`full_data_within_windows`), and a new stream starts at the initial window in force -/
+theorem full_stream_ledger (cfg : Cfg) (evs : List Event) (hrun : (run cfg evs).1.slStopped = false) :
+    (∀ st ∈ (run cfg evs).1.strms,
+      st.window + (sentS st.id (runOuts cfg evs) : Int) =
+        initWin (runFwd cfg evs) + (wuS st.id (runFwd cfg evs) : Int)) ∧
+    (run cfg evs).1.curInitWin = initWin (runFwd cfg evs) :=
+  ⟨stream_ledger cfg evs hrun, init_window_in_force cfg evs⟩
+
+/-- **no frame exceeds the peer's maximum frame size** (run level): every DATA frame of any run carries at most 16 384
+octets, and the peer's SETTINGS_MAX_FRAME_SIZE as the server stores it (`peerFrameSize`) is unset or at least 16 384 -/
+theorem full_max_frame_size (cfg : Cfg) (evs : List Event) :
+    (∀ o ∈ runOuts cfg evs, o.dataLen ≤ 16384) ∧
+      ((run cfg evs).1.peerFrameSize = 0 ∨ 16384 ≤ (run cfg evs).1.peerFrameSize) :=
+  data_frames_small cfg evs
+
+/-! non-vacuity: SETTINGS(INITIAL_WINDOW_SIZE = 10); GET on stream 1; the handler answers with 25 octets — 10 go out;
+WINDOW_UPDATE(1, 5) — 5 more; SETTINGS(INITIAL_WINDOW_SIZE = 3) — the window of stream 1 is 10 + 5 − 15 − 7 = −7;
+WINDOW_UPDATE(0, 100). Both ledgers, as `full_stream_ledger` / `full_conn_ledger` state them:
+−7 + 15 = 3 + 5 and 65 620 + 15 = 65 535 + 100. -/
+def fullFlowRun : List Event :=
+  [.bytes [0, 0, 6, 4, 0, 0, 0, 0, 0, 0, 4, 0, 0, 0, 10],
+   .bytes [0, 0, 3, 1, 5, 0, 0, 0, 1, 0x82, 0x86, 0x84],
+   .done 1 { kind := "buf", src := .pat 1, len := 25 },
+   .bytes [0, 0, 4, 8, 0, 0, 0, 0, 1, 0, 0, 0, 5],
+   .bytes [0, 0, 6, 4, 0, 0, 0, 0, 0, 0, 4, 0, 0, 0, 3],
+   .bytes [0, 0, 4, 8, 0, 0, 0, 0, 0, 0, 0, 0, 100]]
+
+example : (run {} fullFlowRun).1.slStopped = false ∧ (run {} fullFlowRun).1.strms.map (fun s => (s.id, s.window)) = [(1, -7)] ∧
+    (run {} fullFlowRun).1.clientWindow = 65620 ∧
+    sentC (runOuts {} fullFlowRun) = 15 ∧ sentS 1 (runOuts {} fullFlowRun) = 15 ∧
+    grantC (runFwd {} fullFlowRun) = 100 ∧ wuS 1 (runFwd {} fullFlowRun) = 5 ∧ initWin (runFwd {} fullFlowRun) = 3 := by
+  decide +kernel
 
 end H2.Props.C06
